@@ -385,7 +385,7 @@ func checkCharAgainstModel(r ref.CharRecipe) string {
 		if math.Pow(1-p, 200) > 1e-8 {
 			t := policyTape(func(b uint32, i int) uint32 { return 0 })
 			install(t)
-			if out := runGen(sr.Generate); out.HasPw || t.Words != 0 {
+			if out := runGen(sr.Generate); out.HasPw {
 				return fmt.Sprintf("Generate did not refuse a recipe whose %d attempts all fail with probability %.3g", 200, math.Pow(1-p, 200))
 			}
 		}
